@@ -259,3 +259,19 @@ VARIANTS += [
     ("C12-start-day-at", "C12", DT, "        return self.at(0, 0, 0, 0)", "        return self.at(0, 0, 0, 1)", "LATTICE.fields"),
     ("C12-equivalent-refactor", "C12", DT, "        year = self.year - self.year % YEARS_PER_DECADE\n        return self.set(year, 1, 1, 0, 0, 0, 0)", "        year = -(self.year % YEARS_PER_DECADE) + self.year\n        return self.set(year, 1, 1, 0, 0, 0, 0)", None),
 ]
+
+VARIANTS += [
+    ("C13-clean", "C13", None, "", "", None),
+    ("C13-py-const-div", "C13", ISO, '                hours = float(f"0.{_hours}") * HOURS_PER_DAY', '                hours = int(_hours) / 10 * HOURS_PER_DAY', "FRACTION-SCALE"),
+    ("C13-py-truncate", "C13", ISO, '                microseconds += round(float(f"0.{_microseconds}") * 1000000)', '                microseconds += int(f"{_microseconds[:6]:0<6}")', "FRACTION-SCALE"),
+    ("C13-py-carry-int", "C13", ISO, "days, hours = int(_days // 1), _days % 1 * HOURS_PER_DAY", "days, hours = int(_days // 1), int(_days % 1 * HOURS_PER_DAY)", "FRACTION-SCALE"),
+    ("C13-py-fraction-dropped", "C13", ISO, '                seconds += float(f"0.{_secs}") * SECONDS_PER_MINUTE\n', "", "FRACTION-SCALE"),
+    ("C13-py-frac-not-last", "C13", ISO, "        if _minutes:\n            if fractional:\n                raise ParserError(\"Invalid duration\")\n", "        if _minutes:\n", "FRACTION.last-only"),
+    ("C13-rs-unchecked", "C13", RSP, "            value = match value.checked_mul(10).and_then(|v| v.checked_add(digit)) {\n                Some(v) => v,\n                None => return Err(self.parse_error(\"Number too large in duration\".to_string())),\n            };", "            value *= 10;\n            value += digit;", "RUST-ARITH.loop"),
+    ("C13-rs-taint", "C13", RSP, "duration.hours = self.add_duration_value(duration.hours, value)?;", "duration.hours += value;", "RUST-ARITH.taint"),
+    ("C13-rs-unbounded-length", "C13", RSP, "            let iso_week = self.parse_integer(2, \"iso week\")?;\n            let mut iso_day: u32 = 1;\n\n            if !self.end() && self.current != ' ' && self.current != 'T' {\n                iso_day = self.parse_integer(1, \"iso day\")?;", "            let n = self.src.len();\n            let iso_week = self.parse_integer(n, \"iso week\")?;\n            let mut iso_day: u32 = 1;\n\n            if !self.end() && self.current != ' ' && self.current != 'T' {\n                iso_day = self.parse_integer(1, \"iso day\")?;", "RUST-ARITH.bounded"),
+    ("C13-interval-add-drop", "C13", PARSER, "                        seconds=duration.remaining_seconds,\n                        microseconds=duration.microseconds,\n                    ),\n                )", "                        seconds=duration.remaining_seconds,\n                    ),\n                )", "INTERVAL.assembly"),
+    ("C13-interval-sub-days", "C13", PARSER, "                    days=duration.remaining_days,\n                    hours=duration.hours,\n                    minutes=duration.minutes,\n                    seconds=duration.remaining_seconds,\n                    microseconds=duration.microseconds,\n                ),\n                dt,", "                    days=duration.days,\n                    hours=duration.hours,\n                    minutes=duration.minutes,\n                    seconds=duration.remaining_seconds,\n                    microseconds=duration.microseconds,\n                ),\n                dt,", "INTERVAL.assembly"),
+    ("C13-interval-add-sub-swap", "C13", PARSER, "                return pendulum.interval(\n                    dt,\n                    dt.add(", "                return pendulum.interval(\n                    dt,\n                    dt.subtract(", "INTERVAL.assembly"),
+    ("C13-rust-to-py", "C13", PARSER, "            days=parsed.days,\n            hours=parsed.hours,", "            days=parsed.hours,\n            hours=parsed.days,", "ATTRS.rust-to-py"),
+]
